@@ -34,6 +34,14 @@ case "$cmd" in
   check)
     id="${2:?property id}"; tier="${3:-${VERIF_TIER:-quick}}"
     build || exit 2
+    if [ "$tier" = "thorough" ] && [ -f "$VERIF/harness/fuzz/fuzz_targets/$(echo "$id" | tr 'A-Z' 'a-z').rs" ] && [ -z "${P2V_NO_FUZZ:-}" ]; then
+      # thorough tier of a property with a coverage-guided target: proptest / enumeration first, then libFuzzer
+      "$HARNESS_BIN" check "$id" "$tier"; c1=$?
+      "$VERIF/tools/fuzz_stage.sh" "$id"; c2=$?
+      if [ $c1 = 1 ] || [ $c2 = 1 ]; then exit 1; fi
+      if [ $c1 != 0 ]; then exit $c1; fi
+      exit $c2
+    fi
     exec "$HARNESS_BIN" check "$id" "$tier"
     ;;
   replay)
